@@ -3,6 +3,7 @@ package props
 import (
 	"fmt"
 	"runtime"
+	"sync"
 	"sync/atomic"
 
 	"github.com/alttpo/snes/emulator"
@@ -106,6 +107,26 @@ func installHooks(c *cpu65c816.CPU, plan []hookPlan, pending int, maxCalls int) 
 	}
 }
 
+// fastMem: a flat 16 MiB RAM device that counts reads and raises mem.LimitExceeded beyond its limit.
+type fastMem struct {
+	data  []byte
+	reads int64
+	limit int64
+}
+
+func (f *fastMem) Read(a uint32) byte {
+	f.reads++
+	if f.reads > f.limit {
+		panic(mem.LimitExceeded{Reads: int(f.reads >> 10)})
+	}
+	return f.data[a]
+}
+func (f *fastMem) Write(a uint32, v byte) { f.data[a] = v }
+func (f *fastMem) Shutdown()              {}
+func (f *fastMem) Size() uint32           { return 1 << 24 }
+func (f *fastMem) Clear()                 {}
+func (f *fastMem) Dump(uint32) []byte     { return nil }
+
 type countWriter struct {
 	writes int
 	bytes  int
@@ -181,6 +202,49 @@ func C12(r *vf.Run) {
 	r.Assume = []string{"cpualt declares OnPC but implements no program-counter callback and has no RunUntil: judged on Step accounting and OnWDM only", "termination is decided on logical counts (iterations <= budget), never on wall-clock time"}
 	ncpu := runtime.NumCPU()
 	var zeroCycle int32
+
+	// budgets beyond the 32-bit limits: one RunUntil call that consumes more than 2^31 / 2^32 cycles (a
+	// program that calls itself for ever, 8 cycles a step, the target out of reach). These run beside the
+	// other phases and are joined at the end; a memory device that counts its reads bounds them logically.
+	var huge sync.WaitGroup
+	if r.Phase("huge-budgets") {
+		budgets := []uint64{1<<31 + 3, 1<<32 + 3}
+		if runtime.GOARCH == "386" {
+			budgets = budgets[:1] // (the width of the counters in question does not depend on the target)
+		}
+		for _, budget := range budgets {
+			huge.Add(1)
+			go func(budget uint64) {
+				defer huge.Done()
+				s := new(emulator.System)
+				fm := &fastMem{data: make([]byte, 1<<24), limit: int64(budget/8+64) * 4}
+				if err := s.Bus.Attach(fm, "ram", 0, 0xFFFFFF); err != nil {
+					panic(err)
+				}
+				s.CPU.Init(&s.Bus)
+				// $12:3456: JSL $123456
+				copy(fm.data[0x123456:], []byte{0x22, 0x56, 0x34, 0x12})
+				s.CPU.RK, s.CPU.PC, s.CPU.SP = 0x12, 0x3456, 0x01FF
+				s.CPU.E, s.CPU.M, s.CPU.X = 0, 1, 1
+				var ret bool
+				pan := vf.Try(func() { ret = s.RunUntil(0x7E0000, budget) })
+				r.Eval(int64(s.CPU.AllCycles / 8))
+				want := (budget + 7) / 8 * 8
+				switch {
+				case pan != nil:
+					if _, ok := pan.(mem.LimitExceeded); ok {
+						r.Fail("rununtil-does-not-return", fmt.Sprintf("RunUntil(target out of reach, budget %d): still executing after %d cycles (%d instruction fetches)", budget, s.CPU.AllCycles, fm.reads/4), nil)
+					} else {
+						r.Fail("rununtil-panics", fmt.Sprintf("RunUntil(budget %d) panicked after %d cycles: %v", budget, s.CPU.AllCycles, pan), nil)
+					}
+				case ret || s.CPU.AllCycles != want:
+					r.Fail("rununtil-huge-budget", fmt.Sprintf("RunUntil(target out of reach, budget %d) over 8-cycle instructions returned %v after %d cycles, want false after %d", budget, ret, s.CPU.AllCycles, want), nil)
+				default:
+					r.Cell(fmt.Sprintf("huge-budget:2^%d", map[bool]int{true: 31, false: 32}[budget < 1<<32]))
+				}
+			}(budget)
+		}
+	}
 
 	if r.Phase("cycle-sweep") {
 		variants := r.N(2, 100)
@@ -599,8 +663,8 @@ func C12(r *vf.Run) {
 							r.Fail("rununtil-memory", fmt.Sprintf("memory differs at $%06x", a), det())
 						}
 					}
-					if cw != nil && cw.writes != iters {
-						r.Fail("rununtil-iterations", fmt.Sprintf("RunUntil($%06x, %d) logged %d instructions, the specification performs %d loop iterations (%d steps, stop=%s)", target, budget, cw.writes, iters, steps, reason), det())
+					if cw != nil && cw.writes != steps {
+						r.Fail("rununtil-iterations", fmt.Sprintf("RunUntil($%06x, %d) logged %d instructions, the specification executes %d (stop=%s)", target, budget, cw.writes, steps, reason), det())
 					}
 					if rw, ok := A.s.Logger.(*reserveWriter); ok && rw.commits != 1 {
 						r.Fail("rununtil-commit", fmt.Sprintf("Committer.Commit called %d times", rw.commits), det())
@@ -858,6 +922,7 @@ func C12(r *vf.Run) {
 			}
 		})
 	}
+	huge.Wait()
 	if r.OnlyPhase == "" {
 		for _, c := range []string{"reuse:moved-same-count", "reuse:map-replaced", "reuse:grown", "reuse:shrunk", "reuse:many-callbacks"} {
 			r.Require(c)
